@@ -17,6 +17,7 @@ import (
 	"sort"
 	"strconv"
 	"strings"
+	"syscall"
 	"sync"
 	"time"
 )
@@ -250,16 +251,19 @@ func (w *worker) run(job *Job, timeout time.Duration) (res *Result, crashed bool
 		return &res, false
 	case <-time.After(timeout):
 		// collect goroutine dump for diagnosis
-		w.cmd.Process.Signal(os.Interrupt)
+		w.cmd.Process.Signal(syscall.SIGQUIT)
 		time.Sleep(200 * time.Millisecond)
 		w.kill()
 		<-ch
 		t := w.stderr.String()
-		if len(t) > 3000 {
+		if q := strings.Index(t, "SIGQUIT: quit"); q >= 0 {
+			// the goroutine that was running comes first in the dump
+			t = firstN(t[q:], 3000)
+		} else if len(t) > 3000 {
 			t = t[len(t)-3000:]
 		}
 		return &Result{Prop: job.Prop, Seed: job.Seed, Index: job.Index,
-			Inconclusive: fmt.Sprintf("watchdog: no result within %v; last output: %s", timeout, t)}, true
+			Inconclusive: fmt.Sprintf("watchdog: no result within %v (job seed=%d index=%d); last output: %s", timeout, job.Seed, job.Index, t)}, true
 	}
 }
 
@@ -683,6 +687,12 @@ func cmdRun(prop string, args []string) int {
 	writeEvidence(prop, o.tier, seed, meta, agg, time.Since(start).Seconds(), runWall, len(vkeys))
 	fmt.Printf("property=%s tier=%s runs=%d sessions=%d distinct_nontrivial=%d steps=%d inconclusive=%d known=%d violations=%d wall=%.1fs (build %.1fs)\n",
 		prop, o.tier, agg.evaluations, agg.sessions, len(agg.nontrivial), agg.steps, inconcl, len(agg.known), len(vkeys), time.Since(start).Seconds(), buildS)
+	for i, r := range agg.inconclusive {
+		if i == 3 {
+			break
+		}
+		fmt.Fprintf(os.Stderr, "inconclusive run: %s\n", strings.ReplaceAll(firstN(r, 300), "\n", " | "))
+	}
 	if exit == 0 && agg.evaluations > 0 && inconcl*20 > agg.evaluations {
 		fmt.Fprintf(os.Stderr, "too many inconclusive runs (%d of %d): %s\n", inconcl, agg.evaluations, firstN(agg.inconclusive[0], 800))
 		return 2
@@ -692,6 +702,18 @@ func cmdRun(prop string, args []string) int {
 		return 2
 	}
 	return exit
+}
+
+// inconclusiveReasons keeps the first few reasons (truncated) for the evidence.
+func inconclusiveReasons(in []string) []string {
+	out := []string{}
+	for i, r := range in {
+		if i == 5 {
+			break
+		}
+		out = append(out, firstN(r, 300))
+	}
+	return out
 }
 
 func firstN(s string, n int) string {
@@ -765,6 +787,7 @@ func writeEvidence(prop, tier string, seed uint64, meta PropMeta, a *aggregate, 
 		"components_real":        meta.Real,
 		"components_stub":        meta.Stub,
 		"inconclusive_runs":      len(a.inconclusive),
+		"inconclusive_reasons":   inconclusiveReasons(a.inconclusive),
 		"invalid_scenarios":      a.invalid,
 		"known_findings_hit":     a.known,
 		"technique":              meta.Technique,
